@@ -98,6 +98,9 @@ type Flag struct {
 	argV    []*Val
 	srcVals map[ssa.Value]bool // for local-name callees
 	desc    string
+	ret     bool       // retof(...): tracks the result of the last matching call
+	retT    types.Type
+	sort    string
 }
 
 type loopInfo struct {
@@ -823,8 +826,12 @@ func (c *FnCtx) mergeStates(label string, edges []inEdge) *State {
 	}
 	for _, f := range c.flags {
 		id := f.id
+		srt, dflt := "Bool", "false"
+		if f.ret {
+			srt, dflt = f.sort, c.retInit(f)
+		}
 		out.flags[id] = pick(func(s *State) (Term, bool) { t, ok := s.flags[id]; return t, ok },
-			func() Term { return "false" }, "Bool", fmt.Sprintf("flag%d", id))
+			func() Term { return dflt }, srt, fmt.Sprintf("flag%d", id))
 	}
 	out.nextRef = pick(func(s *State) (Term, bool) { return s.nextRef, true }, func() Term { return "0" }, "Int", "nextref")
 	return out
@@ -945,7 +952,11 @@ func (c *FnCtx) execAll() {
 		c.setupSpec(st0)
 	}
 	for _, f := range c.flags {
-		st0.flags[f.id] = "false"
+		if f.ret {
+			st0.flags[f.id] = c.retInit(f)
+		} else {
+			st0.flags[f.id] = "false"
+		}
 	}
 	out := map[*ssa.BasicBlock]*State{}
 	order := c.rpo()
@@ -1010,6 +1021,12 @@ func (c *FnCtx) execAll() {
 		}
 	}
 	c.curBlock = nil
+}
+
+func (c *FnCtx) retInit(f *Flag) Term {
+	n := fmt.Sprintf("ret0.%d", f.id)
+	c.declare(n, fmt.Sprintf("(declare-const %s %s)", n, f.sort))
+	return n
 }
 
 func (c *FnCtx) phiMerge(st *State, phi *ssa.Phi, edges []inEdge) *Val {
@@ -1090,6 +1107,10 @@ func (c *FnCtx) loopHead(li *loopInfo, ent *State, edges []inEdge) *State {
 		hd.cells[k] = v.S
 	}
 	for _, f := range c.flags {
+		if f.ret {
+			hd.flags[f.id] = c.fresh(fmt.Sprintf("ret%d", f.id), f.sort)
+			continue
+		}
 		nf := c.fresh(fmt.Sprintf("flag%d", f.id), "Bool")
 		old := ent.flags[f.id]
 		if old == "" {
